@@ -1038,3 +1038,43 @@ func derefsReceiverAtEntry(f *ssa.Function) bool {
 	}
 	return false
 }
+
+// OkCheckedUse: for calls matching cm that return (value, ok), every
+// dereferencing use of the value inside fn happens where ok is known true.
+func (c *Ctx) OkCheckedUse(fn *ssa.Function, cm CM, label string) int {
+	n := 0
+	for _, ci := range callsIn(fn, cm) {
+		tup := ci.Value()
+		if tup == nil || tup.Referrers() == nil {
+			continue
+		}
+		okv := ExtractOf(func(x ssa.Value) bool { return x == ssa.Value(tup) }, 1)
+		for _, r := range *tup.Referrers() {
+			e, isE := r.(*ssa.Extract)
+			if !isE || e.Index != 0 || e.Referrers() == nil {
+				continue
+			}
+			for _, ref := range *e.Referrers() {
+				deref := false
+				switch x := ref.(type) {
+				case *ssa.FieldAddr:
+					deref = x.X == ssa.Value(e)
+				case *ssa.UnOp:
+					deref = x.Op == token.MUL && x.X == ssa.Value(e)
+				case *ssa.Call:
+					if !x.Call.IsInvoke() && len(x.Call.Args) > 0 && x.Call.Args[0] == ssa.Value(e) {
+						if cal := x.Call.StaticCallee(); cal != nil && cal.Signature.Recv() != nil {
+							deref = derefsReceiverAtEntry(cal)
+						}
+					}
+				}
+				if !deref {
+					continue
+				}
+				n++
+				c.MustFact(ref, label, Truth(okv, true))
+			}
+		}
+	}
+	return n
+}
